@@ -19,7 +19,7 @@ PSC::DataType Parser::getPSCType() {
     } else if (currentToken->value == "STRING") {
         return PSC::DataType::STRING;
     } else {
-        std::abort();
+        throw PSC::SyntaxError(*currentToken, "Cannot cast to '" + currentToken->value + "'");
     }
 }
 
